@@ -9,7 +9,7 @@ RULE = ('case = (document term over text/concat/nest/group/line/softline/hardlin
         'x width in {1..6, 10} x fraction in {1.0, 0.5, 0.1} x both strategies, plus every term laid out a second time (same document object) after a layout with other settings; random: Hypothesis terms up to 14 leaves, '
         'width 1..40, fraction in (0, 1]. Oracle: back-tracking (memoised) matcher of the emitted SDoc stream against the '
         'reference denotational semantics (ppv/refsem.py); push/pop properly nested with identical annotation objects; '
-        'default renderer output == stream text with only trailing spaces removed. non-trivial = term has a '
+        'the same term without its annotations lays out to the same text; default renderer output == stream text with only trailing spaces removed. non-trivial = term has a '
         'group/fill and the layout contains a line break, or the term uses align/hang/annotate/flat_choice; '
         'distinct by hash of term+config')
 ASSUMPTIONS = ['the reference semantics in ppv/refsem.py is the meaning of a document (written from the property text)',
@@ -105,6 +105,21 @@ class NoTermination(Exception):
     pass
 
 
+def strip_annotations(t):
+    k = t[0]
+    if k == 'ann':
+        return strip_annotations(t[2])
+    if k in ('cat', 'fill'):
+        return [k, [strip_annotations(x) for x in t[1]]]
+    if k in ('nest', 'hang'):
+        return [k, t[1], strip_annotations(t[2])]
+    if k in ('grp', 'ab', 'align'):
+        return [k, strip_annotations(t[1])]
+    if k == 'fc':
+        return [k, strip_annotations(t[1]), strip_annotations(t[2])]
+    return t
+
+
 def oracle(case):
     from prettyprinter import sdoctypes
     from prettyprinter.render import default_render_to_str
@@ -128,6 +143,16 @@ def oracle(case):
         return core.viol('not-a-layout', 'stream %r is no layout of %s (w=%s frac=%s %s)' % (
             stream, core.canonical(t)[:500], case['w'], case['frac'], case['strategy']))
     raw = refsem.stream_text(stream, sdoctypes)
+    if 'ann' in docterm.kinds(t):
+        # "annotations never change the text": the same document without its annotations lays out to the same text
+        try:
+            bare, _ = layout(dict(case, t=strip_annotations(t), pre=[]))
+        except Exception as e:
+            return core.viol('engine-raised', 'without annotations: %r on %s' % (e, core.canonical(case)[:400]))
+        bare_text = refsem.stream_text(bare, sdoctypes)
+        if bare_text != raw:
+            return core.viol('annotation-changes-text', 'with annotations %r, without %r: %s (w=%s frac=%s %s)' % (
+                raw, bare_text, core.canonical(t)[:400], case['w'], case['frac'], case['strategy']))
     try:
         rendered = default_render_to_str(list(stream))
     except Exception as e:
